@@ -92,10 +92,10 @@ def bordersOfIds (h w : Nat) (bid : List (List Int)) : Pzpr.Borders :=
 
 /-! ### compass -/
 
-/-- a compass clue inside the board, numbers `-1` (none) or `0..255` (what `parse_puzz_link_url` can read back) -/
+/-- a compass clue inside the board, numbers `-1` (none) or `0..4095` (everything `encode_array` can write) -/
 def CompassClueOk (h w : Nat) (c : CompassClue) : Prop :=
   0 ≤ c.y ∧ c.y < h ∧ 0 ≤ c.x ∧ c.x < w ∧
-  (-1 ≤ c.up ∧ c.up ≤ 255) ∧ (-1 ≤ c.left ∧ c.left ≤ 255) ∧ (-1 ≤ c.down ∧ c.down ≤ 255) ∧ (-1 ≤ c.right ∧ c.right ≤ 255)
+  (-1 ≤ c.up ∧ c.up ≤ 4095) ∧ (-1 ≤ c.left ∧ c.left ≤ 4095) ∧ (-1 ≤ c.down ∧ c.down ≤ 4095) ∧ (-1 ≤ c.right ∧ c.right ≤ 4095)
 
 /-- row-major position of a clue -/
 def cluePos (w : Nat) (c : CompassClue) : Int := c.y * w + c.x
